@@ -79,6 +79,8 @@ func c15Sets() []c15Set {
 		"https":   c15JobText("https", "/p", "", ""),
 		"params":  c15JobText("", "", c15Params, ""),
 		"relabel": c15JobText("", "", c15Params, c15Relabel),
+		// a member (z = 2) whose relabeling overrides a URL parameter of the job
+		"param-override": c15JobText("", "", c15Params, "  - {source_labels: [z], regex: \"2\", target_label: __param_a, replacement: over}\n"),
 	}
 	for _, jn := range chk.SortedKeys(jobs) {
 		out = append(out, c15Set{Name: jn + "/ts4", Job: jobs[jn], Common: common, Ts: ts4})
@@ -351,6 +353,85 @@ func init() {
 			if h1v == h0 {
 				r.Violate("C15:edit-same-hash:"+e.name, "different-differ", fmt.Sprintf("%s and %s (edit %s) share hash %d", k0, k1, e.name, h0), idx,
 					&c15Replay{Property: "C15", Clause: "different-differ", Variant: e.name, Base: k0, Got: k1})
+			}
+		}
+		// long label sets: Prometheus' label hash switches to a streaming path once the encoded labels pass
+		// 1 KiB; every single-label edit of sets below, around and above that size must change the hash
+		for _, nl := range []int{8, 38, 40, 42, 70} {
+			idx++
+			if !c.Mine(idx) {
+				continue
+			}
+			mk := func(edit int, val string) c15T {
+				t := c15T{"h:1", map[string]string{}}
+				for i := 0; i < nl; i++ {
+					v := fmt.Sprintf("value-of-label-%03d", i)
+					if i == edit {
+						v = val
+					}
+					t.Labels[fmt.Sprintf("l%03d", i)] = v
+				}
+				return t
+			}
+			hb, kb := one(baseJob, mk(-1, ""))
+			seen := map[uint64]int{}
+			for i := 0; i < nl; i++ {
+				he, _ := one(baseJob, mk(i, fmt.Sprintf("value-of-label-%03dx", i)))
+				r.States++
+				r.Transitions++
+				if he == hb {
+					r.Violate("C15:edit-same-hash:label-of-long-set", "different-differ", fmt.Sprintf("a target with %d labels (%d bytes): changing the value of label %d leaves hash %d unchanged", nl, len(kb), i, hb), idx,
+						&c15Replay{Property: "C15", Clause: "different-differ", Variant: fmt.Sprintf("%d labels, edit label %d", nl, i)})
+				}
+				if j, dup := seen[he]; dup {
+					r.Violate("C15:edit-same-hash:label-of-long-set", "different-differ", fmt.Sprintf("a target with %d labels: editing label %d and editing label %d give the same hash %d", nl, j, i, he), idx,
+						&c15Replay{Property: "C15", Clause: "different-differ", Variant: fmt.Sprintf("%d labels, edits %d and %d", nl, j, i)})
+				}
+				seen[he] = i
+			}
+		}
+		for _, ln := range []int{900, 1000, 1010, 1020, 1030, 1100, 3000} {
+			idx++
+			if !c.Mine(idx) {
+				continue
+			}
+			long := strings.Repeat("v", ln)
+			ha, _ := one(baseJob, c15T{"h:1", map[string]string{"k": long + "a", "m": "n"}})
+			hb, _ := one(baseJob, c15T{"h:1", map[string]string{"k": long + "b", "m": "n"}})
+			hc, _ := one(baseJob, c15T{"h:1", map[string]string{"k": long + "a", "m": "o"}})
+			r.States++
+			r.Transitions += 3
+			if ha == hb || ha == hc || hb == hc {
+				r.Violate("C15:edit-same-hash:long-label-value", "different-differ", fmt.Sprintf("targets that differ in the last byte of a %d-byte label value, or in the label after it, share a hash (%d %d %d)", ln+1, ha, hb, hc), idx,
+					&c15Replay{Property: "C15", Clause: "different-differ", Variant: fmt.Sprintf("label value of %d bytes", ln+1)})
+			}
+		}
+		// history: what the coordinator's explorer does between two rounds (it builds every target's URL from
+		// the job settings it shares with the discovery) must not influence the next round's hashes
+		for si, s := range sets {
+			idx++
+			if !c.Mine(idx) {
+				continue
+			}
+			id := make([]int, len(s.Ts))
+			for i := range id {
+				id[i] = i
+			}
+			gs := c15Variant(s, id, 0, 0)
+			fresh, _, _ := c15Hashes(s.Job, gs, 1)
+			info, _ := pipe.LoadInfo(s.Job)
+			_, d := pipe.Discovered(info, []map[string][]*targetgroup.Group{{"j1": gs}})
+			probed := pipe.ExploreAll(info, d)
+			got := pipe.Rediscover(d, map[string][]*targetgroup.Group{"j1": gs})
+			hist := map[string]uint64{}
+			for h, t := range got {
+				hist[t.ShardTarget.Labels.String()+" @ "+t.PromTarget.URL().String()] = h
+			}
+			r.States++
+			r.Transitions += 2 + int64(len(probed))
+			if chk.JSON(hist) != chk.JSON(fresh) {
+				r.Violate("C15:history-dependent:explored-between-rounds", "stable", fmt.Sprintf("set %s: after the explorer probed the targets (%v), the next round with the same groups and configuration gives other hashes", s.Name, probed), idx,
+					&c15Replay{Property: "C15", Clause: "stable", Set: s, Variant: fmt.Sprintf("round, explore every target, round (set %d)", si), Base: fresh, Got: hist})
 			}
 		}
 		// history: rounds before a reload must not influence the hashes after it
